@@ -50,23 +50,30 @@ ID = "C08"
 GEN = []
 CORR_NAME = "fresh-name-choices+grounded-action-names+result-decision-table"
 RULE = ("three streams. (1) fresh: 0-8 initial names (registered as fluent / object / action / user type) and 1-8 requests "
-        "(base, 0-3 parameter names, optional trailing info) over an adversarial identifier pool (stems joined with '_', counter "
-        "suffixes _0/_1/_0_0, mixed case, digits, names that are joins / prefixes / mangled forms of one another); every chosen "
-        "name is registered before the next request. (2) compile: ProblemGen problems (harness/upp.py: conditional, quantified, "
-        "disjunctive, numeric effects, invariants, metrics) whose types, objects, fluents, actions and parameters are renamed "
-        "into the adversarial pool, plus 0-3 extra objects, plus planted shapes (prefix actions with shared objects, fluent "
-        "triples a / a_0 / not_a under negation); every compiler whose supports(kind) holds is run; the grounder's names are "
-        "compared with the model's naming state machine. (3) result: all 2x2x3 combinations of problem / map_back / "
-        "plan_back with a random action map and plan. Non-trivial = a fresh request whose joined base is already taken "
-        "(counter search entered), a compile case in which two requests share the same joined base or a generated name "
-        "collides with a declared one, or a result case that reaches the derived plan_back_conversion.")
+        "(base, 0-3 parameter names, optional / empty trailing info) over an adversarial identifier pool (stems joined with '_', "
+        "counter suffixes _0/_1/_0_0, mixed case, digits, names that are joins / prefixes / mangled forms of one another); every "
+        "chosen name is registered before the next request. (2) compile: ProblemGen problems (harness/upp.py: conditional, "
+        "quantified, disjunctive, numeric effects, invariants, metrics) whose types, objects, fluents, actions and parameters are "
+        "renamed into the adversarial pool, plus 0-3 extra objects, plus planted shapes (prefix actions over shared objects: "
+        "s(t_u,u) / s(t,u_t) / s_t(u); fluent triples a, a_0, not_a under negation; trajectory constraints next to fluents named "
+        "hold-0 / seen-phi-1; undefined numeric fluents next to things named is_value_defined_<f>; disjunctive goals next to "
+        "things named dcrm_fake_goal / dcrm_fake_action); on every problem the grounder and three more of {conditional-effects, "
+        "disjunctive-conditions, negative-conditions, quantifiers, usertype-fluents, bounded-types, state-invariants, "
+        "trajectory-constraints, undefined-initial-numeric removers, three pipelines, timed-to-sequential and "
+        "durative-actions-to-processes on the durative reading of the problem} are run when supports(kind) holds; the grounder's "
+        "names are compared with the model's naming state machine, the declared names of every other compiled problem with the "
+        "model's uniqueness check. (3) result: all combinations of problem / map_back / plan_back with a random action map "
+        "and plan. Non-trivial = a fresh request whose joined base is already taken (counter search entered), a grounding in "
+        "which two instances share their joined name or a counter suffix was needed, another compilation that declared names "
+        "the input did not have, or a result case that reaches a back-conversion of a non-empty plan.")
 ASSUMPTIONS = [
     "environment flag error_used_name = True (the library default): a name is 'unique' when no two of {user types, objects, "
     "fluents, actions} of one problem share it; parameter and variable names are scoped to their action / quantifier",
-    "documented rejections (not failures): ConditionalEffectsRemover raises UPProblemDefinitionError for a conditional effect on a "
-    "non-Boolean fluent of a timed effect (conditional_effects_remover.py:183) and for conditional increase/decrease "
-    "effects it cannot split; TrajectoryConstraintsRemover raises UPProblemDefinitionError 'PROBLEM NOT SOLVABLE' "
-    "(trajectory_constraints_remover.py:371,389) when a constraint is violated in the initial state; "
+    "documented rejections (not failures): ConditionalEffectsRemover raises UPProblemDefinitionError '... could not be removed "
+    "without changing the problem' for a conditional TIMED effect on a non-Boolean fluent (conditional_effects_remover.py:183; "
+    "not reachable from the generated problems); TrajectoryConstraintsRemover raises UPProblemDefinitionError 'PROBLEM NOT "
+    "SOLVABLE' (trajectory_constraints_remover.py:376,397) when an always / sometime-before constraint is violated in the "
+    "initial state; "
     "NegativeConditionsRemover raises UPExpressionDefinitionError 'Unable to remove negative conditions' for a negation (in "
     "NNF) of something that is neither a fluent, an equality nor a comparison, e.g. a negated quantifier "
     "(negative_conditions_remover.py:145); a CompilersPipeline raises UPUsageError '<engine> cannot handle this kind of "
@@ -115,8 +122,8 @@ def name_pool(rng):
                 for u in st:
                     if u != s and u != t:
                         pool += [s + "_" + t + "_" + u]
-    pool += ["disjunctive_conditions_remover_fake_goal", "disjunctive_conditions_remover_fake_action",
-             "disjunctive_conditions_remover_fake_action_0", "not", "_0", "0", "true"]
+    pool += ["dcrm_fake_goal", "dcrm_fake_action",
+             "dcrm_fake_action_0", "not", "_0", "0", "true"]
     seen, out = set(), []
     for n in pool:
         if n not in seen:
@@ -433,8 +440,8 @@ def gen_planted(rng):
                 ["actions"] + acts, ["goals", ["le", ["i", "1"], ["fl", num[0]]]], ["traj"], ["metrics"]]
     if k < 0.42:
         # a disjunctive goal next to things named like the remover's fake goal fluent / fake actions
-        clash = rng.choice(["disjunctive_conditions_remover_fake_goal", "disjunctive_conditions_remover_fake_action",
-                            "disjunctive_conditions_remover_fake_action_0", "disjunctive_conditions_remover_fake_goal_0"])
+        clash = rng.choice(["dcrm_fake_goal", "dcrm_fake_action",
+                            "dcrm_fake_action_0", "dcrm_fake_goal_0"])
         kd = rng.choice(["object", "action", "fluent"])
         q, r = [s, "bool", []], [t, "bool", []]
         fls = [[q, ["b", "F"]], [r, ["b", "F"]]] + ([[[clash, "bool", []], ["b", "F"]]] if kd == "fluent" else [])
@@ -1021,8 +1028,10 @@ MANIFEST = {
                    "correspondence check; every compiler is additionally run on adversarially renamed problems under an "
                    "oracle of the property (uniqueness, declaredness, back-conversion) on the real code."),
     "level_note": ("Trusted: Lean kernel; axioms propext, Classical.choice, Quot.sound; the correspondence harness. Partial: the "
-                   "transformations of the compilers are not modelled (oracle on the real code only); temporal, multi-agent, "
-                   "interpreted-function and conformant compilers are not exercised."),
+                   "transformations of the compilers are not modelled (oracle on the real code only: 12 compilers and 3 pipelines); "
+                   "the multi-agent, interpreted-function, conformant (KS0) and tarski compilers are not exercised; three open "
+                   "findings (usertype-fluents remover on metrics, timed-to-sequential on forall effects, durative-to-processes on "
+                   "nested fluent arguments) are excluded by cause predicates."),
     "technique": "Lean 4 proof + model/code correspondence + property oracle over all compilers",
     "design_ref": "DESIGN.md §5 C08",
 }
